@@ -26,6 +26,15 @@ IGNORE_BATTERY = [
     ("end-directive", "-- stylua: ignore start\nlocal a   = 1\n-- stylua: ignore end\nlocal b   = 2\n", [], ["local a   = 1\n"], ["local b = 2\n"]),
     ("second-directive-wins", "-- stylua: ignore start\n-- stylua: ignore end\nlocal b   = 2\n", [], [], ["local b = 2\n"]),
     ("trimmed", "--    stylua: ignore   \nlocal x   =  1\n", [], ["local x   =  1\n"], []),
+    ("crlf-stmt", "-- stylua: ignore\r\nlocal x   =  1;\r\nlocal y   =  2\r\n", [], ["local x   =  1;\r\n"], ["local y = 2\n"]),
+    ("crlf-stmt-windows", "-- stylua: ignore\r\nlocal x   =  1;\r\nlocal y   =  2\r\n", ["--line-endings", "Windows"], ["local x   =  1;\r\n"], ["local y = 2\r\n"]),
+    ("crlf-region", "local a   = 1\r\n-- stylua: ignore start\r\nlocal b   =  2; -- c\r\nlocal c   =  3;\r\n-- stylua: ignore end\r\nlocal d   = 4\r\n", [],
+     ["local b   =  2; -- c\r\n", "local c   =  3;\r\n"], ["local a = 1\n", "local d = 4\n"]),
+    ("crlf-last", "local y   =  2\r\n-- stylua: ignore\r\nreturn   y ;\r\n", [], ["return   y ;\r\n"], ["local y = 2\n"]),
+    ("field-crlf", "local t   =   {\r\n  -- stylua: ignore\r\n  f   =   1,\r\n  g   =   2,\r\n}\r\n", [], ["  f   =   1,"], ["\tg = 2,\n"]),
+    ("trailing-tab", "-- stylua: ignore\t\nlocal x   =  1\nlocal y   =  2\n", [], ["local x   =  1\n"], ["local y = 2\n"]),
+    ("trailing-formfeed", "-- stylua: ignore \x0c\nlocal x   =  1\nlocal y   =  2\n", [], ["local x   =  1\n"], ["local y = 2\n"]),
+    ("region-trailing-cr-tab", "-- stylua: ignore start \t\r\nlocal a   = 1\r\n--\tstylua: ignore end\r\nlocal b   = 2\r\n", [], ["local a   = 1\r\n"], ["local b = 2\n"]),
     ("plain", "local a   = 1\nlocal b   = 2\n", [], [], ["local a = 1\n", "local b = 2\n"]),
     ("ignore-then-normal", "-- stylua: ignore\nlocal a   = 1\nlocal b   = 2\nlocal c   = 3\n", [], ["local a   = 1\n"], ["local b = 2\n", "local c = 3\n"]),
     ("call-semi", "-- stylua: ignore\nf  ( a );\n(g)()\n", [], ["f  ( a );\n"], []),
@@ -98,9 +107,9 @@ def run_battery(battery):
     return res
 
 
-SEMI = {"stmt-required-semi", "range-required-semi-untouched", "range-required-semi-untouched-nested", "stmt-semi", "stmt-semi-comment", "last-semi", "region-semi", "nested-semi", "call-semi", "range-second", "range-first", "range-last",
+SEMI = {"crlf-stmt", "crlf-stmt-windows", "crlf-last", "stmt-required-semi", "range-required-semi-untouched", "range-required-semi-untouched-nested", "stmt-semi", "stmt-semi-comment", "last-semi", "region-semi", "nested-semi", "call-semi", "range-second", "range-first", "range-last",
         "range-both-semis", "range-ignore-inside", "range-required-semi", "range-second-exact"}
-TOGGLE = {"region-starts-on-last", "region-ends-on-last", "region-starts-on-last-break", "region", "no-leak", "end-directive", "second-directive-wins", "eof-comment", "plain"}
+TOGGLE = {"crlf-region", "region-trailing-cr-tab", "region-starts-on-last", "region-ends-on-last", "region-starts-on-last-break", "region", "no-leak", "end-directive", "second-directive-wins", "eof-comment", "plain"}
 
 
 def scenarios_for(kind, names):
@@ -133,6 +142,40 @@ def confirm(rep, flagged, battery, prop, kinds):
         rep.add(oid, status, f"{what}; confirmed by scenario `{n}`: {v}")
 
 
+def sort_requires_kernels(rep, ses, kinds, scen_filter):
+    """require sorting walks the top-level statements itself: its ignore / range guard (kernels of vcheck/props/c12.py) is part of
+    this property too - an ignored or out-of-range statement that is MOVED is not reproduced at the corresponding position"""
+    from . import c12
+    flagged = []
+    for fn_ in (c12.ignore_guard, c12.region_tracking):
+        try:
+            flagged += fn_(ses, rep)
+        except Inconclusive as e:
+            rep.add(f"sort_requires/{fn_.__name__}", "inconclusive", str(e)[:300], nontrivial=False)
+    for oid, what, kind, info in flagged:
+        if kind not in kinds:
+            continue
+        names = [n for n in c12.KIND2SCEN.get(kind, []) if scen_filter(n)]
+        sc, v, rec = c12.run_battery(names)
+        if v is None:
+            rep.add("sort_requires/" + oid, "inconclusive", f"solver model ({what}) did not reproduce on the native build")
+            continue
+        role = {"obligation": "sort_requires/" + kind, "scenario": sc}
+        status = rep.violation(role, {"what": what, "observed": v, "c12_scenario": sc, "scenario": sc, **rec})
+        rep.add("sort_requires/" + oid, status, v)
+
+
+def sort_requires_fallback(rep, scen_filter):
+    from . import c12
+    for name, src, args, want in c12.BATTERY:
+        if not scen_filter(name):
+            continue
+        sc, v, rec = c12.run_battery([name])
+        if v:
+            status = rep.violation({"obligation": "battery-after-undecided-kernel", "scenario": sc}, {"what": "kernel undecided; scenario battery", "observed": v, "c12_scenario": sc, "scenario": sc, **rec})
+            rep.add(f"battery/sort_requires/{sc}", status, v)
+
+
 def analyses(ses, rep):
     M = ignoremodel.Model(ses, "default")
     flagged = []
@@ -156,19 +199,42 @@ def run(ses, rep):
                         "the directive strings and near-misses " + repr(ignoremodel.LINES),
                         "callee results other than the summarised ones are unconstrained"]
     rep.outside += ["the text of the ignored statement itself (identity of the node is what is checked)", "table fields (format_field / "
-                    "format_multiline_table are replayed only)", "sort_requires' ignore guard (C12)"]
+                    "format_multiline_table are replayed only)"]
     flagged = analyses(ses, rep)
     rep.samples.append({"flagged": [(f[0], f[1]) for f in flagged][:5]})
     confirm(rep, flagged, IGNORE_BATTERY, "C08", ("ignore", "toggle", "both"))
     confirm(rep, flagged, [b for b in RANGE_BATTERY if "ignore" in b[0]], "C08", ("ignored-in-range",))
     confirm(rep, flagged, [b for b in IGNORE_BATTERY if b[0].startswith("field-")], "C08", ("field",))
+    sort_requires_kernels(rep, ses, ("guard", "region"), lambda n: "ignor" in n)
     others = [f for f in flagged if f[2] not in ("ignore", "toggle", "both", "ignored-in-range", "field")]
     rep.extra["flagged_for_C09"] = [f[0] for f in others]
+
+
+def fallback_with(rep, battery):
+    res = run_battery(battery)
+    for n, (v, rec) in res.items():
+        if v:
+            role = {"obligation": "battery-after-undecided-kernel", "scenario": n}
+            status = rep.violation(role, {"what": "kernel undecided; scenario battery", "scenario": n, "observed": v, **rec})
+            rep.add(f"battery/{n}", status, v)
+
+
+def fallback(rep):
+    """kernels undecided: the whole scenario battery is run; only reproduced violations are reported"""
+    fallback_with(rep, IGNORE_BATTERY + [b for b in RANGE_BATTERY if "ignore" in b[0]])
+    sort_requires_fallback(rep, lambda n: "ignor" in n)
 
 
 def replay(path):
     d = json.load(open(path))
     sc = d["replay"]["scenario"]
+    if d["replay"].get("c12_scenario"):
+        from . import c12
+        n_, v, rec = c12.run_battery([sc])
+        print("scenario", sc, "->", v or "property holds")
+        if v:
+            print(f"VIOLATION property={d['property']} replay={path}")
+        return 1 if v else 0
     res = run_battery([b for b in IGNORE_BATTERY + RANGE_BATTERY if b[0] == sc])
     v = res[sc][0]
     print("scenario", sc, "->", v or "property holds")
